@@ -10,8 +10,8 @@ THEOREMS = [
     "C14_new_decimal_wf", "C14_parse_wf", "C14_add_wf", "C14_sub_wf", "C14_mul_wf", "C14_neg_wf", "C14_abs_wf",
     "C14_shiftl_wf", "C14_shiftr_wf", "C14_truncate_wf", "C14_text_roundtrip", "C14_text_roundtrip_wf",
     "C14_format_is_literal", "C14_exponent_view_refuted", "C14_exponent_view_except_known", "C14_coex_new_decimal",
-    "C14_mul_coex_refuted", "C14_mul_coex_except_known", "C14_parse_exponent_exact", "C14_parsed_exponent",
-    "C14_parse_exponent_rejected",
+    "C14_mul_coex_refuted", "C14_mul_coex_except_known", "C14_parse_exponent_exact", "C14_parse_exponent_exact_nofrac",
+    "C14_parse_exponent_over64", "C14_parsed_exponent", "C14_parse_exponent_rejected", "C14_parse_exponent_value_range",
 ]
 
 MIN32, MAX32 = -(1 << 31), (1 << 31) - 1
@@ -107,8 +107,17 @@ def oracle(line, go):
             got = parse_out(go)
             if go == "panic":
                 return "ParseDecimal panics"
-            if want is None or got is None:
-                return None          # leniency on non-Ion text / refusing a valid literal are not silent changes
+            if want is None:
+                return None          # leniency on non-Ion text is not a silent change
+            if got is None:
+                # the only range condition is on the exponent of the VALUE (written exponent minus the number of
+                # fraction digits); the written exponent itself only has to be readable as an int64.  (Underscores
+                # are removed by the tokenizer before ParseDecimal sees the text.)
+                m = ION_DEC.fullmatch(text)
+                written = int(m.group(5) or b"0")
+                if MIN32 <= want[1] <= MAX32 and -MAX64 - 1 <= written <= MAX64 and b"_" not in text:
+                    return "valid literal denoting %sd%d (exponent fits int32) is refused" % (short(want[0]), want[1])
+                return None
             if not (MIN32 <= want[1] <= MAX32):
                 return "text denotes exponent %d (outside int32) but parses to %s" % (want[1], go)
             if got != list(want):
@@ -206,6 +215,13 @@ CATALOGUE = [
     "1d2147483647", "1d2147483648", "1d-2147483648", "1d-2147483649", "1d99999999999999999999", "1d-99999999999999999999",
     "1.0d-2147483648", "0.1d-2147483648", "1.00d-2147483647", "0.1d-2147483647", "-0.0d-2147483648", "1.5d2147483647",
     "1.0d2147483648", "10d2147483647", "0d2147483647", "-0d2147483647", "-0d-2147483648", "0.0d-2147483648",
+    # the range condition is on the exponent of the value, not on the written one
+    "0.5d2147483648", "0.5d2147483649", "0.50d2147483649", "0.50d2147483650", "-0.0d2147483648", "0.d2147483648",
+    "1.d2147483647", "0.5D+2147483648", "0.5d+2147483649", "12.345d2147483650", "12.345d2147483651", "1d+2147483648",
+    "1.5d-2147483647", "1.5d-2147483648", "1d-2147483648", "1.d-2147483648", "1.d-2147483649", "0d-2147483649",
+    "0.5d9223372036854775807", "0.5d9223372036854775808", "0.5d-9223372036854775808", "0.5d-9223372036854775809",
+    "1d9223372036854775807", "1d9223372036854775808", "1d-9223372036854775808", "1d-9223372036854775809",
+    "0.5d4294967296", "0.5d4294967297", "0.5d-4294967295", "1d4294967296", "0.0000000000d2147483657", "0.0000000000d2147483658",
     "NaN", "nan", "inf", "+inf", "null.decimal", "1d0x5", "1d5 ", "1d 5", "1.5d", "1.5D", "1.5d+", "0d", "-0d",
 ]
 
@@ -366,6 +382,25 @@ def gen(ctx):
     return un, shifts, truncs, binl, fmt, internals
 
 
+def edge_exponent_texts(rng, count):
+    """literals whose VALUE's exponent is on / next to an int32 edge while the written exponent is further out (it is
+    lowered by the number of fraction digits), and written exponents on / next to the int64 edges"""
+    out = []
+    for _ in range(count):
+        k = rng.choice([0, 0, 1, 1, 2, 3, 5, 9, rng.randint(0, 40)])
+        ip = rng.choice(["0", "1", "7", "10", "-0", "-1", "-12", str(rng.randint(0, 10 ** rng.randint(1, 20)))])
+        fp = "".join(rng.choice("0123456789") for _ in range(k))
+        if rng.random() < 0.25:
+            fp = "0" * k
+        tgt = rng.choice([MAX32 - 1, MAX32, MAX32 + 1, MAX32 + 2, MIN32 - 2, MIN32 - 1, MIN32, MIN32 + 1,
+                          MAX64 - k, MAX64 - k + 1, -MAX64 - 1 - k, -MAX64 - 2 - k, (1 << 32) - k, -(1 << 32) - k])
+        written = tgt + k
+        dot = "." if (k > 0 or rng.random() < 0.5) else ""
+        sign = "+" if (written >= 0 and rng.random() < 0.3) else ""
+        out.append(("%s%s%s%s%s%d" % (ip, dot, fp, rng.choice("dD"), sign, written)).encode())
+    return out
+
+
 def mutate(rng, b):
     b = bytearray(b)
     ops = rng.randint(1, 2)
@@ -400,7 +435,7 @@ def run(ctx):
             tx = bytes.fromhex(g[4:])
             texts.append(tx)
             back[tx] = ln
-    cat = [c.encode("utf-8") for c in CATALOGUE]
+    cat = [c.encode("utf-8") for c in CATALOGUE] + edge_exponent_texts(rng, ctx.scale(400, 6000))
     seen = set()
     plines = []
     for tx in texts + cat + [mutate(rng, rng.choice(texts + cat)) for _ in range(ctx.scale(6000, 100000))]:
